@@ -195,5 +195,8 @@ def run(ctx, prog):
             h = lm.held_at(ct, bb, must=True)
             ctx.inst('C05.R2', ct.short, '%s.write() under the exclusive snapshot lock' % a.cls, h.get('PersistenceState.snapshot_lock', (None,))[0] == 'W', 'held: %s' % sorted(h))
     ctx.exception('C05.R2', 'HnswBackend::compact_tombstones', 'stop-the-world rebuild under snapshot_lock(W); writers hold snapshot_lock(R) before the gate, so they are excluded')
-    # the token read is the reader's linearisation point: canonical_vector_state reads the token with one acquisition
+    # the token read is the reader's linearisation point: the validator compares the FULL token (version and digest: the version restarts at 1 after
+    # delete + reinsert) and the copy's own digest — same instances as C04.R3
+    from rules import C04 as _c04b
+    _c04b.validator_guards(ctx, prog, 'C05.R3')
     ctx.stat('functions_analysed', len(set(i['key'].split(' | ')[1] for i in ctx.instances)))
